@@ -1784,10 +1784,12 @@ def get_technical_notations(e: etree._Element) -> List[score.NoteTechnicalNotati
         "fingering": parse_fingering,
     }
 
+    # every element, in document order: a note can carry several fingerings
+    # (the exporter writes one element per score.Fingering)
     technical_notations = [
-        parser(e.find(a))
+        parser(el)
         for a, parser in technical_notation_parsers.items()
-        if e.find(a) is not None
+        for el in e.findall(a)
     ]
 
     return technical_notations
